@@ -79,6 +79,9 @@ type Run struct {
 	// started from an action of the outer parse (see nest() in the harness epilogue)
 	Input string
 	Inner bool
+	// NestedChanged: set by nest() when the value a nested parse returned reads differently after the
+	// caller went back to the outer parse (PopContex) - the caller keeps that pointer
+	NestedChanged string
 }
 
 type FuelPanic struct{}
@@ -146,6 +149,10 @@ func Tick() {
 // if Parser returned), isNil says Parser returned a nil pointer.
 func Finish(r *Run, p interface{}, isNil bool, n int, s string) Result {
 	res := Result{Fetches: r.Fetches, Reds: r.Reds}
+	if r.NestedChanged != "" {
+		res.Class, res.Panic = "nested-result-changed", r.NestedChanged
+		return res
+	}
 	switch {
 	case p == nil && !isNil:
 		res.Class, res.N, res.S = "accept", n, s
